@@ -50,7 +50,14 @@ func tcpCmd(args []string) int {
 		go func() {
 			defer wg.Done()
 			for idx := range ch {
-				results[idx] = tcps.Replay(cases[idx])
+				switch cases[idx].Mode {
+				case "loop-accept":
+					results[idx] = tcps.ReplayLoop(cases[idx], false)
+				case "loop-dial":
+					results[idx] = tcps.ReplayLoop(cases[idx], true)
+				default:
+					results[idx] = tcps.Replay(cases[idx])
+				}
 			}
 		}()
 	}
